@@ -1,14 +1,44 @@
 """C01 — see DESIGN.md section 4 ("the repository model") and lean/XvcRepo/XvcRepo/Props/C01.lean.
 Proof: Lean theorems about the executable repository model.  Tie: the model driver is compared with the rebuilt xvc
 binary after every command of generated histories.  Oracle: model-independent, lib/repo_check.py."""
+import random
 import repo_check as rc
+from repo_check import W, T, CI, RC
 
-ORACLES = []
+ORACLES = [rc.o1r_recheck_restores]
 RESTORE = dict(every_step=False)
 
 
+def sibling_histories(seed, n):
+    """Files of ONE directory whose names differ only in the extension (sample.img / sample.lbl / sample), or are prefixes
+    of each other, committed and restored together by one command, serially and in parallel, again and again: whatever
+    xvc derives from a file name (temporary names, cache file names `0.<ext>`, ignore lines) must not collide."""
+    rng = random.Random(f'c01-siblings-{seed}')
+    out = []
+    for i in range(n):
+        d = rng.choice(['', 'd/', 'ünï/'])
+        stem = rng.choice(['sample', 's', 'data.v1', 'x y'])
+        names = rng.sample([f'{d}{stem}.img', f'{d}{stem}.lbl', f'{d}{stem}', f'{d}{stem}.img.bak', f'{d}.{stem}'], rng.randint(2, 4))
+        cfg = {'algo': rng.choice([0, 0, 1, 2, 3]), 'method': rng.choice(['copy', 'copy', 'reflink', 'hardlink', 'symlink']), 'tob': rng.choice(['auto', 'binary'])}
+        same = rng.random() < 0.3
+        body = lambda k: bytes(f'{stem}-{i}-{0 if same else k}-', 'utf8') + bytes(rng.getrandbits(8) for _ in range(rng.choice([8, 2000, 60000])))
+        blobs = {p: body(k) for k, p in enumerate(names)}
+        h = [W(p, b) for p, b in blobs.items()]
+        h.append(T(names, no_parallel=rng.random() < 0.4))
+        for _ in range(rng.randint(2, 4)):
+            victims = rng.sample(names, rng.randint(2, len(names)))
+            h += [{'op': 'delete', 'path': p} for p in victims]
+            h.append(RC(names if rng.random() < 0.5 else victims, no_parallel=rng.random() < 0.5, method=rng.choice([None, None, 'copy'])))
+        if rng.random() < 0.5:
+            p = rng.choice(names)
+            h += [W(p, blobs[p] + b'+edit'), CI(names, no_parallel=rng.random() < 0.5), {'op': 'delete', 'path': p}, RC(names, no_parallel=rng.random() < 0.5)]
+        out.append((f'siblings-{i}', cfg, h))
+    return out
+
+
 def run(chk):
-    return rc.run_property(chk, 'C01', ORACLES, restore=RESTORE)
+    n = 30 if chk.tier == 'quick' else 300
+    return rc.run_property(chk, 'C01', ORACLES, restore=RESTORE, nq=250, extra_corpus=sibling_histories(chk.seed, n))
 
 
 def replay(chk, data):
